@@ -1,0 +1,49 @@
+//go:build verif
+
+// Contracts for package searcher: BooleanSearcher at protocol level (read by /verif/gocv;
+// comment-only effect with the verif tag off). What is proved: Advance and initSearchers only make
+// calls on the must / should / must-not children that satisfy the Searcher contract (a child is
+// only advanced to a target beyond its own cursor), nothing panics, and the state handed to Next
+// satisfies the representation invariant. Next's merge loop is not under contract (trusted).
+
+package searcher
+
+// a child and its current match: the child's cursor is exactly there; nil once the child is
+// exhausted (after initialisation); no child, no match
+//@ spec boolSlot(child search.Searcher, cur *search.DocumentMatch, inited bool) bool = implies(child == nil, cur == nil) && \
+//@     implies(child != nil && cur != nil, child.started && !child.done && child.last == dmKey(cur)) && implies(child != nil && cur == nil && inited, child.done) && \
+//@     implies(child != nil && !inited, cur == nil && !child.started && !child.done)
+// the three children are different objects (and not the searcher itself), their matches too
+//@ spec boolApart(s *BooleanSearcher) bool = implies(s.mustSearcher != nil, s.mustSearcher != s && s.mustSearcher != s.shouldSearcher && s.mustSearcher != s.mustNotSearcher) && \
+//@     implies(s.shouldSearcher != nil, s.shouldSearcher != s && s.shouldSearcher != s.mustNotSearcher) && implies(s.mustNotSearcher != nil, s.mustNotSearcher != s) && \
+//@     implies(s.currMust != nil, s.currMust != s.currShould && s.currMust != s.currMustNot) && implies(s.currShould != nil, s.currShould != s.currMustNot)
+// currentID is the id of the driving child's current match (must if there is a must clause,
+// otherwise should); nil when that child is exhausted
+//@ spec boolCurrent(s *BooleanSearcher) bool = implies(s.mustSearcher != nil && s.currMust != nil, s.currentID != nil && idKey(s.currentID) == dmKey(s.currMust)) && \
+//@     implies(s.mustSearcher == nil && s.currShould != nil, s.currentID != nil && idKey(s.currentID) == dmKey(s.currShould)) && \
+//@     implies((s.mustSearcher != nil && s.currMust == nil) || (s.mustSearcher == nil && s.currShould == nil), s.currentID == nil)
+//@ spec boolInv(s *BooleanSearcher) bool = boolSlot(s.mustSearcher, s.currMust, s.initialized) && boolSlot(s.shouldSearcher, s.currShould, s.initialized) && boolSlot(s.mustNotSearcher, s.currMustNot, s.initialized) && \
+//@     boolApart(s) && implies(s.initialized, boolCurrent(s))
+
+//@ func BooleanSearcher.initSearchers
+//@   props C08
+//@   mode int
+//@   requires s != nil && ctx != nil && ctx.DocumentMatchPool != nil && !s.initialized && boolInv(s)
+//@   modifies fields(BooleanSearcher), fields(search.DocumentMatch), search.DocumentMatchPool.avail, mem(*search.DocumentMatch), search.Searcher.started, search.Searcher.last, search.Searcher.done
+//@   ensures implies(result == nil, s.initialized && boolInv(s)) && s.mustSearcher == old(s.mustSearcher) && s.shouldSearcher == old(s.shouldSearcher) && s.mustNotSearcher == old(s.mustNotSearcher) && s.done == old(s.done) && s.scorer == old(s.scorer)
+
+//@ func BooleanSearcher.Next
+//@   props C08
+//@   mode int
+//@   trusted the merge loop of Next (must / should / must-not alignment, scoring) is not under contract; Advance relies on this contract
+//@   requires s != nil && ctx != nil && ctx.DocumentMatchPool != nil && boolInv(s)
+//@   modifies fields(BooleanSearcher), fields(search.DocumentMatch), search.DocumentMatchPool.avail, mem(*search.DocumentMatch), search.Searcher.started, search.Searcher.last, search.Searcher.done
+//@   ensures implies(result1 == nil, boolInv(s))
+
+// Advance: the children behind the target are advanced to it, then Next aligns them.
+//@ func BooleanSearcher.Advance
+//@   props C08
+//@   mode int
+//@   requires s != nil && ctx != nil && ctx.DocumentMatchPool != nil && boolInv(s)
+//@   modifies fields(BooleanSearcher), fields(search.DocumentMatch), search.DocumentMatchPool.avail, mem(*search.DocumentMatch), search.Searcher.started, search.Searcher.last, search.Searcher.done
+//@   ensures implies(result1 == nil, boolInv(s))
